@@ -28,6 +28,10 @@ CLAIMED = {
          "pooled-buffer copy bounds (path-class sensitive, constant arithmetic), retention taint, retain/release typestate by seeded path counting, lockset table rows of the responder",
          "Decides the clauses that make the stored copy equal what was sent and keep pooled buffers alive while referenced: bounded copies incl. RTX offset, deep copies only, exactly-once release protocol, lock discipline, forward-once. Does not decide ring-window arithmetic or RTX field values.",
          "refcount protocol table (Get/Retain/Release, slots field) is frozen; RTPBuffer's 'not started ⇒ all slots empty' invariant is assumed for the first store"),
+ "C12": ("DESIGN.md §3 E, D5; App. B",
+         "growth/shrink pairing of container fields over the call graph (traffic-path reachability), dead-guard detection by whole-program store search, bind/unbind pairing",
+         "Decides that every long-lived container that grows with traffic has a reachable, live shrink on a traffic path or is of a bounded kind, and that per-stream state is removed on unbind. Necessary condition only (a shrink that is not called often enough is not detected).",
+         "owner lifetime is approximated by 'some struct field holds the owner type'; third-party containers are out of scope"),
 }
 
 NA = {
